@@ -560,7 +560,7 @@ pub fn check_def() -> PropertyCheck {
   PropertyCheck {
     id: "C05",
     scenarios: vec![Box::new(C05)],
-    runs: (150_000, 30_000_000),
+    runs: (300_000, 30_000_000),
     rule: "case = operator (merge_all(n in 1..k+1 | unbounded), concat_all, flatten, flat_map, concat_map; local and _threads) x 1-4 inner observables (synchronous with 0-3 items / hot / interval.take on the simulated executor) x script of outer next/complete/error, inner next/complete/error, run ready task #k, jump to next deadline, followed by a fault-free quiescence phase; non-trivial = >=2 inners handed to the operator; distinct = distinct (case, behaviour) hashes",
     assumptions: vec!["items pushed into a hot inner while it is queued (not yet subscribed) are legitimately lost and not expected"],
   }
